@@ -547,7 +547,7 @@ func validateSamples(eng *Engine, spec *PropSpec, scratch, tier string) (int, in
 	}
 	for i := 0; i < len(samples); i += step {
 		s := samples[i]
-		if len(s.Log) == 0 || len(s.Sched) > 0 && !eng.cfg.Params_validateConcurrent() {
+		if len(s.Log) == 0 || s.Gors > 1 && !eng.cfg.Params_validateConcurrent() {
 			continue
 		}
 		if perHarness[s.Harness] >= limit {
